@@ -143,7 +143,7 @@ def base_strategy():
             s += "#" + f
         return s
 
-    return st.builds(mk, st.sampled_from(["http", "https", "ftp", "file", "ws", "wss", "sftp", "svn+ssh", "rtsp", "HTTP"]),
+    return st.builds(mk, st.sampled_from(["http", "https", "ftp", "file", "ws", "wss", "sftp", "svn+ssh", "rtsp", "HTTP", "git", "rsync", "nfs", "telnet", "mailto"]),
                      st.one_of(st.sampled_from(AUTHS), st.sampled_from(AUTHS), st.none()), path_segs, st.booleans(),
                      st.sampled_from(QUERIES), st.sampled_from(FRAGS), st.booleans())
 
@@ -187,7 +187,7 @@ def generated(ctx, backend, n):
 
 B_SHAPES = ["http://h", "http://h/", "http://h/a", "http://h/a/", "http://h/a/b", "http://h/a/b/", "http://h/a%2Fb/c", "http://h/e%25/b", "http://h/%C3%A9/x",
             "http://h/a/b?q", "http://h/a/b#f", "http://h/a/b?q#f", "http://h?q", "http://h#f", "http://u:p@h:81/a/b;p?q", "http://[::1]/a/b", "https://h/a//b",
-            "http://h//a", "file:///a/b", "file:/a/b", "ftp://h/a/b/c/d", "ws://h/a.b/c.d", "http://h/%3F/%23?x=%26#%23", "mailto:x@y", "urn:a:b", "x-custom://h/a/b",
+            "http://h//a", "file:///a/b", "file:/a/b", "ftp://h/a/b/c/d", "ws://h/a.b/c.d", "http://h/%3F/%23?x=%26#%23", "mailto:x@y", "urn:a:b", "x-custom://h/a/b", "git://h/repo/dir/file?q=1#f", "rsync://h/a/", "nfs://h/x/y", "telnet://h/", "git+ssh://u@h/a/b", "snews://h/g",
             "http:/a/b", "http:a/b", "http:", "http://h/a/../b", "http://h/./a"]
 R_SHAPES = ["", "?y", "#s", "?y#s", "g", "g/", "g/h", "./g", "../g", "../../g", "../../../g", ".", "./", "..", "../", "g/.", "g/..", "g/../h", "g/./h", "/g", "/", "/./g",
             "/../g", "//g", "//g/h", "//g?y", "//u@g:9/h", "http:g", "http:/g", "http://g/h", "http:", "https:g", "https://o/p", "mailto:z", "g?y", "g#s", "g?y#s", ";x",
